@@ -25,6 +25,12 @@ COQ = os.path.join(ROOT, "coq")
 REPO = os.path.abspath(os.environ.get("VERIF_REPO", "/repo"))
 ALT = REPO != "/repo"
 ALT_DIR = os.path.join(CACHE, "alt", hashlib.sha256(REPO.encode()).hexdigest()[:10]) if ALT else None
+if ALT:
+    # private copy of the Coq tree (translators write Gen/*.v from the other checkout) and of the OCaml cache
+    os.makedirs(ALT_DIR, exist_ok=True)
+    subprocess.run(["rsync", "-a", "--delete", "--exclude", ".lia.cache", "--exclude", ".nia.cache",
+                    COQ + "/", os.path.join(ALT_DIR, "coq") + "/"], check=True)
+    COQ = os.path.join(ALT_DIR, "coq")
 GUARD = "rust_minidump_verif"
 NCPU = 16
 
@@ -245,7 +251,7 @@ def coqchk(pid):
 def ocaml_build(pid):
     """Extract coq/<pid>/Extract.v and build .cache/ocaml/<pid>/model. Returns path."""
     low = pid.lower()
-    d = os.path.join(CACHE, "ocaml", low)
+    d = os.path.join(ALT_DIR if ALT else CACHE, "ocaml", low)
     os.makedirs(d, exist_ok=True)
     rc, out, _ = coq_make([os.path.join(pid, "Driver.vo")])
     if rc != 0:
